@@ -10,28 +10,29 @@ from gv.model import dbutil
 
 ID = "C18"
 RULE = (
-    "Part 'seq' (shards = record x start): every (record, start<=end, strand {+,-,.}, use_strand) over a two-record FASTA (12 bases; 9 "
-    "bases with IUPAC ambiguity codes) x FASTA given as pyfaidx object, as path, as a path that held another reference a moment ago, "
-    "and as a path with a stale index file next to it; len(feature), sequence() (keyword and positional use_strand) against reference "
-    "slicing / reverse complement, and sequence length = len. Part 'bed' (shards = blocks of 4 exon sets): every set of <= 3 pairwise "
-    "disjoint exons (incl. none) over positions 1..6 (quick, 176 sets) / 1..8 (thorough, 709) x transcript span {hull, extended left, "
-    "extended right} x strand {+,-} x CDS option (none, first, first+last, inner, first+last in descending file order) x name field "
-    "{ID, Name} x argument {id, Feature} x thick (CDS) / thin (UTR) selection x always_return_list x coordinate offset {100, 0} "
-    "(thorough: full product; quick: an 8-row pairwise-covering set of these five options); blocks are children of the transcript and "
-    "(at two levels) of the gene; every other exon set uses block_featuretype 'noncoding_exon' with decoy children of type exon, "
-    "'Noncoding_Exon' and 'noncoding-exon'. bed12() is compared field by field (12 fields, "
+    "Part 'seq' (shards = record x start): every (record, start<=end, strand {+,-,.}, use_strand {True, False, the truthy non-bool 1}) "
+    "over a two-record FASTA (12 bases; 9 bases with IUPAC ambiguity codes) x FASTA given as pyfaidx object, as path, as a path that "
+    "held another reference a moment ago, and as a path with a stale index file next to it; len(feature), sequence() (keyword and "
+    "positional use_strand) against reference slicing / reverse complement, and sequence length = len. Part 'bed' (shards = blocks of 4 "
+    "exon sets): every set of <= 3 pairwise disjoint exons (incl. none) over positions 1..6 (quick, 176 sets) / 1..8 (thorough, 709) x "
+    "transcript span {hull, extended left, extended right} x strand {+,-} x CDS option (none, first, first+last, inner, first+last in "
+    "descending file order) x name field {ID, Name} x argument {id, Feature} x thick (CDS) / thin (UTR) selection x always_return_list "
+    "x coordinate offset {100, 0} (thorough: full product; quick: an 8-row pairwise-covering set of these five options); blocks are "
+    "children of the transcript and (at two levels) of the gene; every other exon set uses block_featuretype 'noncoding_exon' with "
+    "decoy children of type exon, 'Noncoding_Exon' and 'noncoding-exon'. bed12() is compared field by field (12 fields, "
     "chrom/start/end/name/score/strand/itemRgb/block count/sizes/starts, thick bounds), must raise ValueError exactly on a span "
-    "mismatch with exons and no other exception; with one exon, an inner CDS and thick mode, bed12(block_featuretype=[block type, "
-    "'CDS']) - nested blocks of two types, the last-starting one ending before the feature's end - must raise ValueError as well; "
-    "bed12() of the gene must give the same line apart from the name; convert.to_bed12() (thick mode) is compared as well. Non-trivial "
-    "= minus strand or interior interval (seq); >= 2 exons or a span mismatch or no exon (bed). use_strand is only named when False "
-    "(strand-aware is the documented default)."
+    "mismatch with exons and no other exception; when the last exon has >= 3 bases an 'inner_block' child lies strictly inside it, and "
+    "with hull span and thick mode bed12(block_featuretype=[block type, 'inner_block']) - nested blocks of two types, the last-starting "
+    "one ending before the feature's end - must raise ValueError as well; bed12() of the gene must give the same line apart from the "
+    "name; convert.to_bed12() (thick mode) is compared as well. Non-trivial = minus strand or interior interval (seq); >= 2 exons or a "
+    "span mismatch or no exon (bed). use_strand is left out only when it is True (strand-aware is the documented default)."
 )
 ASSUMPTIONS = [
     "thickStart/thickEnd without thick features, and overlapping exons, are not demanded",
     "thin selection is checked per the docstring's coordinate rule as implemented for BED (thickStart = end of first thin, thickEnd = start-1 of last thin)",
     "pyfaidx is trusted for FASTA access",
     "with blocks of several types, 'the blocks span the feature' is judged on the block that starts last: it must reach the feature's end, whatever an earlier, longer block reaches",
+    "any truthy use_strand value means strand-aware",
 ]
 
 RECORDS = {"chrA": "ACGTTGCAAGCT", "chrB": "GRYKMCNBD"}        # chrB carries IUPAC ambiguity codes
